@@ -183,9 +183,56 @@ func checkGoldFromBytes(t vlib.TB, b []byte, kind string, valid bool, orig *gold
 	}
 }
 
+var goldUsedStates = []string{"generator", "identity", "sum(unnormalised)", "after-rejected-decode"}
+
+// usedGold decodes b into a fresh and into a used goldilocks.Point and compares the observations.
+func usedGold(t vlib.TB, sub string, b []byte) {
+	var c goldilocks.Curve
+	var freshVal *goldilocks.Point
+	look := func(P *goldilocks.Point) recvObs {
+		return observe(func(o *recvObs) {
+			o.accepted = P.UnmarshalBinary(b) == nil
+			if !o.accepted {
+				return
+			}
+			out, err := P.MarshalBinary()
+			o.views = [][]byte{out}
+			o.flags = []bool{err == nil, c.IsOnCurve(P), P.IsIdentity()}
+			if freshVal != nil {
+				o.flags = append(o.flags, P.IsEqual(freshVal), freshVal.IsEqual(P))
+			} else {
+				o.flags = append(o.flags, true, true)
+			}
+		})
+	}
+	fp := new(goldilocks.Point)
+	fresh := look(fp)
+	if fresh.accepted && fresh.pan == "" {
+		freshVal = fp
+	}
+	st := recvState(b, len(goldUsedStates))
+	up := c.Generator()
+	switch st {
+	case 1:
+		up = c.Identity()
+	case 2:
+		up = c.Add(c.Double(up), c.Generator())
+	case 3:
+		vlib.Catch(func() { _ = up.UnmarshalBinary(garbage(57)) })
+	}
+	var before, after [][]byte
+	vlib.Catch(func() { o, _ := up.MarshalBinary(); before = [][]byte{o} })
+	used := look(up)
+	if !used.accepted {
+		vlib.Catch(func() { o, _ := up.MarshalBinary(); after = [][]byte{o} })
+	}
+	judgeUsed(t, sub, sub, goldUsedStates[st], b, fresh, used, before, after)
+}
+
 func checkGoldUnmarshal(t vlib.TB, b []byte, kind string, valid bool, orig *goldilocks.Point) {
 	const sub = "goldilocks.Point.UnmarshalBinary"
 	vlib.Eval(sub)
+	usedGold(t, sub, b)
 	var P goldilocks.Point
 	var err error
 	if pn, _ := vlib.Catch(func() { err = P.UnmarshalBinary(b) }); pn != nil {
@@ -431,9 +478,69 @@ func genFourQ(t *rapid.T, kind string) (b []byte, valid bool, orig *fourq.Point)
 	}
 }
 
+var fourqUsedStates = []string{"generator", "identity", "sum", "k·G", "after-rejected-decode"}
+
+// usedFourQ decodes b into a fresh and into a used fourq.Point and compares the observations.
+func usedFourQ(t vlib.TB, sub string, b []byte) {
+	var freshVal *fourq.Point
+	look := func(P *fourq.Point) recvObs {
+		return observe(func(o *recvObs) {
+			var in [32]byte
+			copy(in[:], b)
+			o.accepted = P.Unmarshal(&in)
+			if !o.accepted {
+				return
+			}
+			var out [32]byte
+			P.Marshal(&out)
+			x, y := fqToE2(&P.X), fqToE2(&P.Y)
+			o.views = [][]byte{out[:], x.A.Bytes(), x.B.Bytes(), y.A.Bytes(), y.B.Bytes()}
+			o.flags = []bool{P.IsOnCurve(), P.IsIdentity()}
+		})
+	}
+	fp := new(fourq.Point)
+	fresh := look(fp)
+	if fresh.accepted && fresh.pan == "" {
+		freshVal = fp
+	}
+	_ = freshVal
+	st := recvState(b, len(fourqUsedStates))
+	up := new(fourq.Point)
+	up.SetGenerator()
+	switch st {
+	case 1:
+		up.SetIdentity()
+	case 2:
+		var g fourq.Point
+		g.SetGenerator()
+		up.Add(up, &g)
+	case 3:
+		var k [32]byte
+		vlib.ExpandInto(k[:], vlib.Hash64(b))
+		up.ScalarBaseMult(&k)
+	case 4:
+		var g [32]byte
+		copy(g[:], garbage(32))
+		up.Unmarshal(&g)
+	}
+	marshal := func() [][]byte {
+		var o [32]byte
+		up.Marshal(&o)
+		return [][]byte{o[:]}
+	}
+	var before, after [][]byte
+	vlib.Catch(func() { before = marshal() })
+	used := look(up)
+	if !used.accepted {
+		vlib.Catch(func() { after = marshal() })
+	}
+	judgeUsed(t, sub, sub, fourqUsedStates[st], b, fresh, used, before, after)
+}
+
 func checkFourQ(t vlib.TB, b []byte, kind string, valid bool, orig *fourq.Point) (accepted bool, ref decode.FQResult) {
 	const sub = "fourq.Point.Unmarshal"
 	vlib.Eval(sub)
+	usedFourQ(t, sub, b)
 	var P fourq.Point
 	var in [32]byte
 	copy(in[:], b)
